@@ -105,6 +105,9 @@ func checkC18(r *core.Run, p *core.Program) {
 			case isBigNumPtr(pv.Type()):
 				tracked[pv] = "big"
 			case isByteSlice(pv.Type()):
+				if recvNamed(f.Obj) == nil && !f.Obj.Exported() && onlyFreshBuffers(p, f, i) {
+					continue // a helper that fills the buffer its callers have just made: not the caller's value
+				}
 				tracked[pv] = "bytes"
 			case typeIs(pv.Type(), "reflect", "Value") && !strings.HasPrefix(pv.Type().String(), "*"):
 				tracked[pv] = "rv"
@@ -534,4 +537,40 @@ func checkC18FreshDocument(r *core.Run, p *core.Program) {
 		}
 	}
 	r.Floor("C18.fresh-document", "documents returned from buffers", n, 2)
+}
+
+// onlyFreshBuffers: every call of the unexported function f in its package passes, for parameter idx, (a slice of)
+// a local variable that the calling function created itself with make().
+func onlyFreshBuffers(p *core.Program, f *fn, idx int) bool {
+	info := f.Pkg.TypesInfo
+	n, all := 0, true
+	for _, g := range funcsOf(f.Pkg) {
+		inspectCalls(info, g.Decl.Body, func(call *ast.CallExpr, cal *types.Func) {
+			if cal != f.Obj || idx >= len(call.Args) {
+				return
+			}
+			n++
+			e := stripParens(call.Args[idx])
+			for {
+				if se, ok := e.(*ast.SliceExpr); ok {
+					e = stripParens(se.X)
+					continue
+				}
+				break
+			}
+			id, ok := e.(*ast.Ident)
+			if !ok {
+				all = false
+				return
+			}
+			init := singleInit(info, g, info.ObjectOf(id))
+			if mk, ok := init.(*ast.CallExpr); ok {
+				if fid, ok := mk.Fun.(*ast.Ident); ok && fid.Name == "make" {
+					return
+				}
+			}
+			all = false
+		})
+	}
+	return n > 0 && all
 }
